@@ -63,6 +63,7 @@ def main(argv=None):
     # ---- verdict
     undecided = []
     failures = []
+    soft = []          # functions outside the verifier's reach (rewritten / unsupported constructs): decided only by the bounded stand-in
     n_obl = 0; n_dis = 0
     fn_rows = []
     trusted = []
@@ -91,7 +92,15 @@ def main(argv=None):
                 if st.get('success'): n_dis += 1
                 fn_rows.append(dict(unit=name, function=short, mode=st.get('mode'), solver_ms=st.get('time_ms'), rlimit=st.get('rlimit'), discharged=bool(st.get('success'))))
         for f in r.failures:
-            if pid in f.props: failures.append((name, f))
+            if pid in f.props:
+                md = r.modes.get(f.owner)
+                if md in ('contract_only', 'external'): soft.append((name, f.owner, 'contract-only verification of the rewritten function failed: ' + f.ident()))
+                else: failures.append((name, f))
+        for k_, why in r.fallback.items():
+            if pid in g.owner_props.get(k_, []) and r.modes.get(k_) == 'external':
+                soft.append((name, k_, why))
+        for (fname, k_, props_) in g.missing:
+            if pid in props_: soft.append((name, k_, 'contracted function no longer exists'))
         for (own, msg) in r.rlimit:
             if pid in g.owner_props.get(own, [pid]):
                 undecided.append('%s: resource limit in %s' % (name, own))
@@ -121,6 +130,18 @@ def main(argv=None):
     for k in kf:
         if k['obligation'] == 'MODEL' and k['what'] not in printed:
             print('KNOWN-FINDING: property=%s %s' % (pid, k['what'])); printed.add(k['what'])
+    bounded_runs = []
+    soft_viol = []
+    if soft and not new_fail:
+        from vx import witness
+        try:
+            d, tried = witness.search(pid, None, a.repo_src, seed)
+            bounded_runs.append(dict(kind='differential replay corpus vs reference semantics (vx/oracle.py)', cases=tried, bound='fixed corpus of vx/corpus.py (enumerated operator pairs, corruptions of 6 seed programs, edge numerics, conversion boundaries, registration scripts)',
+                                     reason=[s_[1] + ': ' + s_[2][:160] for s_ in soft], found=bool(d)))
+            if d: soft_viol.append(d)
+            else: undecided += ['%s: %s is outside the verifier\'s reach (%s) and the bounded stand-in (%d cases) found no failing input' % (s_[0], s_[1], s_[2][:120], tried) for s_ in soft]
+        except Exception as e:
+            undecided.append('bounded stand-in failed: %s: %s' % (type(e).__name__, str(e)[:200]))
     wall = time.time() - t0
     ev = dict(property_id=pid, tier=tier, seed=seed, level=spec.get('level', 'proof'), wall_s=round(wall, 2),
               violations=len(new_fail),
@@ -132,7 +153,7 @@ def main(argv=None):
                             back_end='Verus 0.2026.09.13 (Z3)' + (' + Kani 0.68 (CBMC 6.11, CaDiCaL)' if kres else ''),
                             normalisations_applied=counters,
                             kani=[{k2: v2 for k2, v2 in k.items() if k2 != 'failure'} for k in kres],
-                            bounded=spec.get('bounded', []),
+                            bounded=spec.get('bounded', []) + bounded_runs,
                             not_covered=spec.get('not_covered', []),
                             undecided=undecided,
                             samples=[r_['function'] + ' [' + r_['unit'] + ']' for r_ in fn_rows[:12]] + [k['harness'] for k in kres],
@@ -142,6 +163,16 @@ def main(argv=None):
         ev['coverage']['failed_obligations'] = [f.to_json() if hasattr(f, 'to_json') else f for (_, f) in new_fail]
     os.makedirs(os.path.join(VERIF, 'evidence'), exist_ok=True)
     json.dump(ev, open(os.path.join(VERIF, 'evidence', pid + '.json'), 'w'), indent=1)
+    if soft_viol and not new_fail:
+        os.makedirs(os.path.join(VERIF, 'replays'), exist_ok=True)
+        for d in soft_viol:
+            path = os.path.join(VERIF, 'replays', '%s.bounded.%s.json' % (pid, re.sub(r'[^A-Za-z0-9_.-]+', '_', soft[0][1])[:80]))
+            json.dump(dict(property=pid, obligation='bounded stand-in for ' + ', '.join(sorted(set(s_[1] for s_ in soft))), level='bounded (not proof)', why=[s_[2] for s_ in soft],
+                           failing_input=d['case'], expected=d['expected'], observed=d['observed'], explanation=d['why']), open(path, 'w'), indent=1)
+            print('VIOLATION property=%s replay=%s obligation=bounded-stand-in(%s) input=%s' % (pid, path, soft[0][1], json.dumps(d['case'].get('s', d['case'].get('script')))))
+        ev['violations'] = len(soft_viol)
+        json.dump(ev, open(os.path.join(VERIF, 'evidence', pid + '.json'), 'w'), indent=1)
+        return 1
     if new_fail:
         from vx import replay
         os.makedirs(os.path.join(VERIF, 'replays'), exist_ok=True)
@@ -149,7 +180,7 @@ def main(argv=None):
             fj = f.to_json() if hasattr(f, 'to_json') else f
             ident = fj['obligation']
             path = os.path.join(VERIF, 'replays', '%s.%s.json' % (pid, re.sub(r'[^A-Za-z0-9_.#-]+', '_', ident)[:120]))
-            rep = replay.build_replay(pid, fj, a.repo_src)
+            rep = replay.build_replay(pid, fj, a.repo_src, seed)
             json.dump(rep, open(path, 'w'), indent=1)
             tail = '' if rep.get('failing_input') else ' no-failing-input-found'
             print('VIOLATION property=%s replay=%s obligation=%s%s' % (pid, path, ident, tail))
